@@ -174,5 +174,61 @@ example : Run exS (((exS.take [1]).finish [1]).take [4]) ([] ++ [1] ++ [4]) ∧
   · exact (legalBatchB_iff _ _ _).1 (by decide)
   · exact (legalBatchB_iff _ _ _).1 (by decide)
 
+/-! ## Priorities never stall the scheduler -/
+
+/-- Acyclicity of the remaining task graph, by a rank function. -/
+def Ranked (s : Sorter) (rank : Nat → Nat) : Prop :=
+  ∀ a x, (a, x) ∈ s.edges → a ∈ s.nodes ∧ rank a < rank x
+
+/-- **C19_no_deadlock.** In an acyclic scheduler state (`Ranked`: a strict rank along every remaining
+edge, whose source is a remaining task) with tasks left and nothing handed out but unfinished,
+the ready set is not empty — with `C19_progress`, `get_ready(n)` then returns a task whatever the
+priorities are: priorities reorder ready tasks, they never stall the build. -/
+theorem C19_no_deadlock (s : Sorter) (rank : Nat → Nat)
+    (hacyc : Ranked s rank)
+    (hne : s.nodes ≠ []) (hidle : s.processing = []) : s.avail ≠ [] := by
+  obtain ⟨x, hx, hmin⟩ := exists_min_rank rank s.nodes hne
+  have : x ∈ s.avail := by
+    refine mem_avail.2 ⟨hx, indeg0_iff.2 ?_, by simp [hidle]⟩
+    intro a ha
+    have := hacyc a x ha
+    have := hmin a this.1
+    omega
+  intro h; rw [h] at this; cases this
+
+
+/-- `Ranked` is preserved by handing out and by completing tasks, hence along every `Run`. -/
+theorem C19_ranked_take {s : Sorter} {rank : Nat → Nat} (b : List Nat) (h : Ranked s rank) :
+    Ranked (s.take b) rank := h
+
+theorem C19_ranked_finish {s : Sorter} {rank : Nat → Nat} (xs : List Nat) (h : Ranked s rank) :
+    Ranked (s.finish xs) rank := by
+  intro a x he
+  simp only [finish, List.mem_filter, Bool.and_eq_true, Bool.not_eq_true',
+    List.contains_eq_mem, decide_eq_false_iff_not] at he
+  have := h a x he.1
+  exact ⟨mem_finish_nodes.2 ⟨this.1, he.2.1⟩, this.2⟩
+
+
+theorem C19_ranked_run {s s' : Sorter} {h : List Nat} {rank : Nat → Nat} (hr : Run s s' h)
+    (h0 : Ranked s rank) : Ranked s' rank := by
+  induction hr with
+  | nil => exact h0
+  | ready n b _ _ ih => exact C19_ranked_take b ih
+  | done xs _ ih => exact C19_ranked_finish xs ih
+
+/-- After any run from an acyclic state: tasks left and none in flight ⇒ `get_ready(n)`, `n > 0`,
+hands out a task, for every set-iteration order. -/
+theorem C19_run_never_stalls {s s' : Sorter} {h : List Nat} {rank : Nat → Nat} (hr : Run s s' h)
+    (h0 : Ranked s rank) (hne : s'.nodes ≠ []) (hidle : s'.processing = []) (enum : List Nat)
+    (hp : enum.Perm s'.avail) (n : Nat) (hpos : 0 < n) : s'.readyWith enum n ≠ [] :=
+  C19_progress s' enum hp n hpos (C19_no_deadlock s' rank (C19_ranked_run hr h0) hne hidle)
+
+/-- Non-vacuity: `exS` is ranked by the identity (its only edge is 1 → 4). -/
+example : Ranked exS id := by
+  intro a x he
+  have : (a, x) = (1, 4) := by simpa [exS] using he
+  cases this; exact ⟨by decide, by decide⟩
+
 end Sorter
 end Pytask
